@@ -169,6 +169,9 @@ func (p *Parser[G]) ParseFromLexer(lex *lexer.PeekingLexer, options ...ParseOpti
 	for _, option := range options {
 		option(&ctx)
 	}
+	if verifEnabled {
+		verifParseStart(parseNode, &ctx, p.lex.Symbols(), p.getElidedTypes())
+	}
 	// If the grammar implements Parseable, use it.
 	if parseable, ok := any(v).(Parseable); ok {
 		return v, p.rootParseable(&ctx, parseable)
@@ -245,11 +248,20 @@ func (p *Parser[G]) ParseBytes(filename string, b []byte, options ...ParseOption
 func (p *Parser[G]) parseOne(ctx *parseContext, parseNode node, rv reflect.Value) error {
 	err := p.parseInto(ctx, parseNode, rv)
 	if err != nil {
+		if verifEnabled {
+			verifParseEnd(ctx, err)
+		}
 		return err
 	}
 	token := ctx.Peek()
 	if !token.EOF() && !ctx.allowTrailing {
+		if verifEnabled {
+			verifParseEnd(ctx, &UnexpectedTokenError{Unexpected: *token})
+		}
 		return ctx.DeepestError(&UnexpectedTokenError{Unexpected: *token})
+	}
+	if verifEnabled {
+		verifParseEnd(ctx, nil)
 	}
 	return nil
 }
